@@ -54,6 +54,8 @@ var vs struct {
 	regions []vsRegion
 	threads []*vsThread
 	hook    func(ev vsEvent) // called by the running thread right after each logged event
+	wg      map[*sync.WaitGroup]int
+	spawned func(t *vsThread) // called when instrumented code starts a goroutine (gopool.Go)
 }
 
 func vsReset() {
@@ -64,6 +66,8 @@ func vsReset() {
 	vs.regions = nil
 	vs.threads = nil
 	vs.hook = nil
+	vs.wg = map[*sync.WaitGroup]int{}
+	vs.spawned = nil
 }
 
 func vsAddRegion(p unsafe.Pointer, size int) int {
@@ -262,4 +266,45 @@ func vsUnlock(m *sync.Mutex) {
 	vsPre()
 	m.Unlock()
 	vs.log = append(vs.log, vsEvent{vs.cur.id, vsKUnlock, -2, 0, 0, 0, 0})
+}
+
+// gopool.Go(f) in instrumented code: under a controlled run the goroutine becomes a controlled thread
+// (it does not run before the scheduler grants it a step).
+func vsGo(f func()) {
+	if !vs.active || vs.cur == nil {
+		go f()
+		return
+	}
+	t := vsSpawn(f)
+	if vs.spawned != nil {
+		vs.spawned(t)
+	}
+}
+
+// sync.WaitGroup used by instrumented code (Stream.asyncGoroutineWg): cooperative under a controlled run.
+func vsWgAdd(w *sync.WaitGroup, n int) {
+	w.Add(n)
+	if vs.active {
+		vs.wg[w] += n
+	}
+}
+func vsWgDone(w *sync.WaitGroup) {
+	if vs.active {
+		vs.wg[w]--
+	}
+	w.Done()
+}
+func vsWgWait(w *sync.WaitGroup) {
+	if !vs.active || vs.cur == nil {
+		w.Wait()
+		return
+	}
+	for {
+		vsPre()
+		if vs.wg[w] <= 0 {
+			vs.log = append(vs.log, vsEvent{vs.cur.id, vsKLock, -3, 0, 0, 0, 0})
+			return
+		}
+		vs.log = append(vs.log, vsEvent{vs.cur.id, vsKBusy, -3, 0, 0, 0, 0})
+	}
 }
